@@ -5,7 +5,7 @@ EXPLANATION = ("Real NewProcessSet / ProcessSet.StartAll / tracerProcess / WaitU
                "order between a member's completion and the set's per-process trace subscription is a scheduling choice.")
 ASSUMPTIONS = ["Process.StartAll of a member is replaced by a goroutine emitting VisitTrace, CeaseFlowTrace at arbitrary points (the behaviour of a real process is C01/C02's subject)",
                "tracers replaced by the synchronous stub whose Subscribe is a scheduling point (contract established by C09)",
-               "message flows between processes (throw -> waiting process / catch event) are not covered by this check"]
+               "message flows: Process.StartWith of the instantiated process is a stand-in that counts the instantiation and emits its traces; the wake-up of a referenced catch event is not covered"]
 OV = dict(STD)
 OV["(*%s.Process).StartAll" % ROOT] = "verifProcStartAll"
 EO = ["every WaitUntilComplete call returns once all started processes have completed, however early they finish",
@@ -21,4 +21,10 @@ SCENARIOS = [
     sc("VerifC18_P1_W2seq", "C18 1 process, 2 sequential waits", "1 member process, 2 sequential WaitUntilComplete calls"),
     sc("VerifC18_P1_W2conc", "C18 1 process, 2 concurrent waits", "1 member process, 2 concurrent WaitUntilComplete calls"),
     sc("VerifC18_P2_W1", "C18 2 processes, 1 wait", "2 member processes, 1 WaitUntilComplete", K=90),
+    dict(sc("VerifC18_Message_1", "C18 message flow, 1 throw", "1 member process throwing once, 1 waiting process instantiated through a message flow", K=90),
+         overrides=dict(OV, **{"(*%s.Process).StartAll" % ROOT: "verifProcStartAllThrowing", "(*%s.Process).StartWith" % ROOT: "verifProcStartWith"}),
+         expect_obligations=["a message flow instantiates the waiting target process exactly once per throw", "exactly one cease-process-set trace is emitted"]),
+    dict(sc("VerifC18_Message_2", "C18 message flow, 2 throws", "1 member process throwing twice, the waiting process instantiated twice", K=120, tiers=("thorough",)),
+         overrides=dict(OV, **{"(*%s.Process).StartAll" % ROOT: "verifProcStartAllThrowing", "(*%s.Process).StartWith" % ROOT: "verifProcStartWith"}),
+         expect_obligations=["a message flow instantiates the waiting target process exactly once per throw", "exactly one cease-process-set trace is emitted"]),
 ]
